@@ -192,6 +192,20 @@ def _proto_failures(ctx, header, proto_checks, traces):
 
 
 def oracle(ctx):
+    # D17: a real CONFIRMED hash job (Executor.run_hash_job) whose result arrives after the node
+    # was detached and taken over
+    from . import c09_hashjob
+    try:
+        oc, detail = asyncio.run(asyncio.wait_for(c09_hashjob.stale_hash_scenario(verbose=False), 90))
+    except BaseException as e:  # noqa: BLE001
+        oc, detail = "internal", f"{type(e).__name__}: {e}"
+    ctx.case(("hashjob", "stale-confirmation", oc), nontrivial=True)
+    if oc != "ok":
+        ctx.add_failure("oracle", "stale-hash-result",
+                        f"oracle:internal-error:update_hashes:stale-hash-result:{detail.split(':')[0]}",
+                        "the result of a CONFIRMED hash job that completes after its file node was detached and "
+                        f"taken over by another declaration makes Executor.run_hash_job raise: {detail}",
+                        witness={"scenario": "harness/c09_hashjob.py:stale_hash_scenario", "outcome": detail})
     for name, tr in fixed_traces(ctx).items():
         if tr is None:
             ctx.add_failure("oracle", f"fixed:{name}", f"oracle:fixed-trace-not-replayable:{name}",
